@@ -67,7 +67,7 @@ def gates(tier):
         "min_decided": {APIS[0]: 15000 * k, APIS[1]: 10000 * k},
         "shapes": {c: 5 * k for c in ["ignore", "no-ignore", "multibyte>=2", "ci-terminal", "regex-terminal", "ebnf:star", "ebnf:plus",
                                       "ebnf:opt", "ebnf:alt", "recursive-rule", "bytes:truncated", "accepted-samples",
-                                      "ci:multichar-case-mapping", "names:suffix-style", "anonymous-literals", "option:charset-set", "ignored-terminal-in-rule", "ignore:several"]},
+                                      "ci:multichar-case-mapping", "names:suffix-style", "anonymous-literals", "option:charset-set", "option:cnf", "ignored-terminal-in-rule", "ignore:several"]},
         "min_hashseeds": 2,
     }
 
@@ -165,7 +165,7 @@ def gen_case(rng, spec):
     if use_charset:
         charset = sorted(set(alphabet) | set(chars) | {c for e in examples.values() for x in e for c in x} | {"a", "b", "é"})
     return {"text": text, "alphabet": alphabet, "examples": examples, "charset": charset, "decay": rng.choice([1, 1, 0.5, 0.9]),
-            "maxlen": 3 if spec.get("tier") == "quick" else 4, "sseed": rng.randrange(1 << 30)}
+            "cnf": rng.random() < 0.2, "maxlen": 3 if spec.get("tier") == "quick" else 4, "sseed": rng.randrange(1 << 30)}
 
 
 def sample_strings(O, examples, rng, k=25):
@@ -260,7 +260,16 @@ def run_case(case, ctx):
     ctx.sample({"text": text, "candidates": len(cands), "accepted": acc, "examples": [s for s in cands if want[s]][:6]})
     with warnings.catch_warnings():
         warnings.simplefilter("ignore")
-        ok, L = ctx.call(APIS[0], case, LarkStuff, text)
+        if case.get("cnf") and any(not body for _, body in O.R):
+            # Lark's own CYK conversion refuses rules with an empty expansion (ParseError raised by Lark): unsupported input
+            ctx.shape["option:cnf-not-applicable(empty-rule)"] += 1
+            case = dict(case, cnf=False)
+        if case.get("cnf"):
+            # cnf=True: the rule grammar goes through Lark's own CYK normal form first; same language
+            ctx.shape["option:cnf"] += 1
+            ok, L = ctx.call(APIS[0], case, LarkStuff, text, cnf=True)
+        else:
+            ok, L = ctx.call(APIS[0], case, LarkStuff, text)
         if not ok:
             return
         kw = {}
